@@ -279,6 +279,10 @@ for _pid in ('C01', 'C06', 'C07', 'C09', 'C13'):
 for _pid in ('C01', 'C03'):
     if 'OtterVerif.Props.C03Read' not in PROPS[_pid]['modules']:
         PROPS[_pid]['modules'].append('OtterVerif.Props.C03Read')
+# conservation (written = present + reported) over every history of Impl.Table, removals included
+for _pid in ('C06', 'C01'):
+    if 'OtterVerif.Props.C06Conserve' not in PROPS[_pid]['modules']:
+        PROPS[_pid]['modules'].append('OtterVerif.Props.C06Conserve')
 for _pid, _mods in PINS.items():
     for _m in _mods:
         _name = 'OtterVerif.Pin.' + _m
